@@ -103,6 +103,7 @@ def judge(case):
 
 def cases(tier):
     tl = tails(tier)
+    fp1021 = bytes((91 * i + 29) & 0xFF for i in range(1021))
     for num in range(4096):
         if num == 4076:
             continue
@@ -110,7 +111,12 @@ def cases(tier):
             for t in tl:
                 yield {"num": num, "pad": pad, "tail": t}
         yield {"num": num, "pad": 0, "tail": b"\x00" * 125, "must_parse": True}
+        if num % 16 == 7 or num in (0, 4095, 1070, 1229, 1230, 1240, 4001, 4072):
+            for t in (fp1021, b"\xff" * 1021, fp1021[:1020]):
+                yield {"num": num, "pad": 0, "tail": t}  # payloads of 1023 and 1022 bytes
     for sub in range(256):
+        if sub % 16 == 8 or sub in (0, 200, 255):
+            yield {"num": 4076, "sub": sub, "ver": 0, "pad": 0, "tail": fp1021[:1020]}
         for ver in range(8):
             for pad in (0, 1):
                 for t in tl if ver in (0, 7) else tl[:2]:
